@@ -120,17 +120,42 @@ package domutil
 //@   fresh_assigns elems(ref)
 //@   ensures [C01] #root-itself-first implies(dom.TagName(root) == tagName, result == root)
 
+// C06: every anchor target and video poster of the subtree, the root itself included, is rewritten to its
+// resolution against the page URL (absSpec: the case table of CreateAbsoluteURL); attributes other than
+// href/poster/src/srcset are left alone. (Attribute rows of different nodes are assumed unshared: see dom.SetAttribute
+// in /verif/specs/dom.spec.)
 //@ func MakeAllLinksAbsolute(root, pageURL)
 //@   requires root != nil
+//@   ensures [C06] #root-anchor-resolved implies(old(dom.TagName(root)) == "a", dom.GetAttribute(root, "href") == absAttr(old(dom.GetAttribute(root, "href")), pageURL))
+//@   ensures [C06] #every-anchor-resolved forall(i, 0 <= i && i < ebtLen(root, "a"), dom.GetAttribute(as(ebtAt(root, "a", i), *html.Node), "href") == absAttr(old(dom.GetAttribute(as(ebtAt(root, "a", i), *html.Node), "href")), pageURL))
+//@   ensures [C06] #root-poster-resolved implies(old(dom.TagName(root)) == "video", dom.GetAttribute(root, "poster") == absAttr(old(dom.GetAttribute(root, "poster")), pageURL))
+//@   ensures [C06] #every-poster-resolved forall(i, 0 <= i && i < ebtLen(root, "video"), dom.GetAttribute(as(ebtAt(root, "video", i), *html.Node), "poster") == absAttr(old(dom.GetAttribute(as(ebtAt(root, "video", i), *html.Node), "poster")), pageURL))
+//@   loop 0 invariant forall(x[*html.Node], k[string], implies(x != nil && k != "href", dom.GetAttribute(x, k) == old(dom.GetAttribute(x, k))) || (x == root && k == "poster"))
+//@   loop 0 invariant forall(i, 0 <= i && i < ebtLen(root, "a"), dom.GetAttribute(as(ebtAt(root, "a", i), *html.Node), "href") == ite(i < ITER, absAttr(old(dom.GetAttribute(as(ebtAt(root, "a", i), *html.Node), "href")), pageURL), old(dom.GetAttribute(as(ebtAt(root, "a", i), *html.Node), "href"))))
+//@   loop 0 invariant implies(old(dom.TagName(root)) == "a", dom.GetAttribute(root, "href") == absAttr(old(dom.GetAttribute(root, "href")), pageURL))
+//@   loop 0 invariant implies(old(dom.TagName(root)) == "video", dom.GetAttribute(root, "poster") == absAttr(old(dom.GetAttribute(root, "poster")), pageURL))
+//@   loop 1 invariant forall(i, 0 <= i && i < ebtLen(root, "a"), dom.GetAttribute(as(ebtAt(root, "a", i), *html.Node), "href") == absAttr(old(dom.GetAttribute(as(ebtAt(root, "a", i), *html.Node), "href")), pageURL))
+//@   loop 1 invariant implies(old(dom.TagName(root)) == "a", dom.GetAttribute(root, "href") == absAttr(old(dom.GetAttribute(root, "href")), pageURL))
+//@   loop 1 invariant implies(old(dom.TagName(root)) == "video", dom.GetAttribute(root, "poster") == absAttr(old(dom.GetAttribute(root, "poster")), pageURL))
+//@   loop 1 invariant forall(i, 0 <= i && i < ebtLen(root, "video"), dom.GetAttribute(as(ebtAt(root, "video", i), *html.Node), "poster") == ite(i < ITER, absAttr(old(dom.GetAttribute(as(ebtAt(root, "video", i), *html.Node), "poster")), pageURL), old(dom.GetAttribute(as(ebtAt(root, "video", i), *html.Node), "poster"))))
 
+// (the descendants' src attributes are not specified: the selector ghost of QuerySelectorAll depends on attribute
+// values, which the rewriting of the root's own src changes before the query runs; the URL harness covers them)
 //@ func MakeAllSrcAttributesAbsolute(root, pageURL)
 //@   requires root != nil
+//@   ensures [C06] #only-src-rewritten forall(x[*html.Node], k[string], implies(x != nil && k != "src", dom.GetAttribute(x, k) == old(dom.GetAttribute(x, k))))
+//@   ensures [C06] #root-src-resolved implies(old(mediaTag(dom.TagName(root))), dom.GetAttribute(root, "src") == absAttr(old(dom.GetAttribute(root, "src")), pageURL))
+//@   loop 0 invariant forall(x[*html.Node], k[string], implies(x != nil && k != "src", dom.GetAttribute(x, k) == old(dom.GetAttribute(x, k))))
+//@   loop 0 invariant implies(old(mediaTag(dom.TagName(root))), dom.GetAttribute(root, "src") == absAttr(old(dom.GetAttribute(root, "src")), pageURL))
 
 //@ func MakeAllSrcSetAbsolute(root, pageURL)
 //@   requires root != nil
+//@   ensures [C06] #only-srcset-rewritten forall(x[*html.Node], k[string], implies(x != nil && k != "srcset", dom.GetAttribute(x, k) == old(dom.GetAttribute(x, k))))
+//@   loop 0 invariant forall(x[*html.Node], k[string], implies(x != nil && k != "srcset", dom.GetAttribute(x, k) == old(dom.GetAttribute(x, k))))
 
 //@ func makeSrcSetAbsolute(node, pageURL)
 //@   requires node != nil
+//@   ensures [C06] #only-srcset-rewritten forall(x[*html.Node], k[string], implies(x != nil && k != "srcset", dom.GetAttribute(x, k) == old(dom.GetAttribute(x, k))))
 
 //@ func GetSrcSetURLs(node)
 //@   requires node != nil
